@@ -92,6 +92,10 @@ def run_property(prop: str, repo: str, tier: str, evidence_dir=None, quiet=False
         selftest = ST.matrix(prop, repo, jobs=int(os.environ.get("VERIF_JOBS", "16")))
         # the filed seeded changes / behaviour-preserving refactorings of this property, applied to the current sources in memory
         selftest["corpus"] = ST.corpus(prop, repo, jobs=int(os.environ.get("VERIF_JOBS", "16")))
+        # the general lint pack has no instance on the repository: its own tiny positive / negative examples must behave
+        selftest["lint_pack"] = ST.lint_pack_controls(repo)
+        selftest.setdefault("broken", [])
+        selftest["broken"] += selftest["lint_pack"]["broken"]
 
     wall = time.time() - t0
     level_text = getattr(mod, "LEVEL_TEXT", "static structural rules over the AST / CFG / kind annotations of the current source tree")
